@@ -67,6 +67,8 @@ def work(job):
                                        gl if raw else {k: A.dec(v) for k, v in gl.items()}, budget=300000)
                         obs["ret_repr"] = A.show_py(obs.get("ret"))
                         lv["runs"].append(obs)
+                    if not opt and not raw and traced(kind, ident):
+                        rec["irm0"] = irmachine.machine_module(program, LinearIR)
                     if opt and not raw and traced(kind, ident):
                         # the optimised module's runs once more, instruction by instruction, for spec/IRMachine.tla
                         params = [p_["n"] for p_ in [f for f in prog["funcs"] if f["name"] == "f"][0]["params"]]
@@ -225,6 +227,43 @@ def run(ctx, args):
     for r in recs:
         r["i"] = r["id"]
     irm = c01.irm_validate(ctx, recs, "optimize=True")
+    # ---- translation validation on the IR's own semantics: IRMachine executes both modules (no VM involved)
+    fmods, fcases, fmeta = [], [], {}
+    for r in recs:
+        if "irm" not in r or "irm0" not in r:
+            continue
+        fmods += [r["irm0"], r["irm"]["mod"]]
+        for run_ in r["irm"]["runs"]:
+            for lvl, m in (("O0", len(fmods) - 1), ("O1", len(fmods))):
+                cid = f"free:{r['id']}#{run_['j']}/{lvl}"
+                fcases.append({"id": cid, "m": m, "entry": "f", "args": run_["args"], "globals": run_["globals"], "trace": [], "free": True})
+            fmeta[f"free:{r['id']}#{run_['j']}"] = (r, run_)
+    fver = {}
+    for lo in range(0, len(fcases), 800):
+        part = fcases[lo:lo + 800]
+        used = sorted({c["m"] for c in part})
+        remap = {m: k + 1 for k, m in enumerate(used)}
+        v, _ = irmachine.run_machine(ctx, [fmods[m - 1] for m in used], [dict(c, m=remap[c["m"]]) for c in part], name=f"irm-free-{lo}.json")
+        fver.update(v)
+    free_counts = {"cases": len(fcases)}
+    for key, (r, run_) in fmeta.items():
+        v0, v1 = fver[key + "/O0"], fver[key + "/O1"]
+        case = {"source": r["src"], "id": r["id"], "args": [A.dec(a) for a in run_["args"]], "globals_before": {k: A.dec(x) for k, x in run_["globals"].items()},
+                "unoptimised_ir": {k: v0.get(k) for k in ("status", "why", "ret", "globals")}, "optimised_ir": {k: v1.get(k) for k in ("status", "why", "ret", "globals", "fn", "pc")}}
+        if v0["status"] != "done":
+            free_counts["unjudged:" + v0["status"]] = free_counts.get("unjudged:" + v0["status"], 0) + 1
+            continue
+        if v1["status"] in ("ood", "fuel"):
+            free_counts["unjudged:O1-" + v1["status"]] = free_counts.get("unjudged:O1-" + v1["status"], 0) + 1
+            continue
+        if v1["status"] != "done":
+            ctx.violation(f"ir-semantics-optimised-fails:{v1['status']}", f"executed by the IR machine, the unoptimised module returns, the optimised one stops with {v1['status']} ({v1.get('why')}) at {v1.get('fn')} pc {v1.get('pc')}", case)
+            continue
+        if not irmachine.spec_eq(v0["ret"], v1["ret"]) or not irmachine.spec_eq(v0.get("globals") or {}, v1.get("globals") or {}):
+            ctx.violation("ir-semantics-differ", f"executed by the IR machine, the unoptimised module gives {json.dumps(v0['ret'])[:80]} / {json.dumps(v0.get('globals'))[:80]}, the optimised one {json.dumps(v1['ret'])[:80]} / {json.dumps(v1.get('globals'))[:80]}", case)
+            continue
+        free_counts["equal"] = free_counts.get("equal", 0) + 1
+    irm["ir_level_translation_validation"] = free_counts
     if counts.get("levels-agree", 0) == 0 and not ctx.violations:
         raise common.Machinery("vacuous run: no case in which both levels ran")
     if nontrivial == 0 and not ctx.violations:
@@ -234,7 +273,8 @@ def run(ctx, args):
         rule=f"{len(fam)} optimiser-family programs (all sequences of <= {3 if quick else 4} of {len(optfamily.TEMPLATES)} statement templates, copy chains, and all sequences of <= 3 over a second alphabet of {len(optfamily.TEMPLATES2)} templates: aggregate copies followed by literal element stores, sibling blocks re-declaring a name) x 3 inputs and {n} seeded programs x 3 inputs; "
              "each compiled with optimize False and True: accept/reject compared, both modules run on the VM (value, globals, failures compared), both compared "
              "with NslSem's prescription (TLC), both IR modules checked by IRWellFormed over all paths; "
-             f"{irm['cases']} runs of optimised modules ({irm['events']} instruction events) validated against spec/IRMachine.tla. distinct_nontrivial = programs whose IR the optimiser changed.",
+             f"{irm['cases']} runs of optimised modules ({irm['events']} instruction events) validated against spec/IRMachine.tla, and the same programs executed by IRMachine itself at both levels "
+             f"({free_counts['cases']} executions, results compared inside the specification's value domain). distinct_nontrivial = programs whose IR the optimiser changed.",
         samples=samples or [{"note": "no long agreeing case in this batch"}], traces_validated=counts.get("levels-agree", 0),
         assumptions=["compared only when the unoptimised module succeeds (the statement's wording)", "5 and 5.0 are the same value"],
         extra={"outcome_counts": counts, "functions_checked_by_IRWellFormed": len(fns), "distinct_functions": len(ufns), "irmachine_trace_validation": irm})
